@@ -434,6 +434,48 @@ theorem legacy_perm (m : MethodS) (h : (m.fields.map (pyFieldName m.protoPlus)).
   rw [legacy_order m h]
   exact (List.filter_append_perm _ _).map _
 
+/-- every request field is listed: nothing is dropped, nothing is added -/
+theorem legacy_lists_every_field (m : MethodS) (h : (m.fields.map (pyFieldName m.protoPlus)).Nodup) :
+    (legacyNames m).length = m.fields.length := by
+  rw [(legacy_perm m h).length_eq, List.length_map]
+
+/-- **A request declared in ANOTHER proto package than the RPC** (a dependency file: `acme.common.SharedRequest`,
+`google.iam.v1.SetIamPolicyRequest`; its address is not proto-plus, `m.protoPlus = false`): the entry is ALL its
+fields under their descriptor names — reserved words included, without a trailing underscore —, required first,
+otherwise in declaration order.  The model's field carries no type: scalar, message-, enum-typed, repeated and map
+fields are treated alike; the request's package is not an input of `legacyNames` at all (next theorem). -/
+theorem legacy_cross_package_request (m : MethodS) (hp : m.protoPlus = false) (h : (m.fields.map (·.name)).Nodup) :
+    legacyNames m =
+      (m.fields.filter (·.required)).map (·.name) ++ (m.fields.filter (fun f => !f.required)).map (·.name) := by
+  have hfun : pyFieldName m.protoPlus = (fun f : FieldS => f.name) := by
+    funext f; simp [pyFieldName, hp]
+  rw [legacy_order m (by rw [hfun]; exact h), hfun, List.map_append]
+
+/-- **The table entry is a function of the request's field list (and of whether it is a proto-plus message) only**:
+the RPC's name, package, visibility, kind do not matter — an RPC whose request lives in another package gets the
+same entry as one declaring the same (non-reserved) fields locally. -/
+theorem legacy_depends_on_fields_only (m m' : MethodS) (hp : m.protoPlus = m'.protoPlus) (hf : m.fields = m'.fields) :
+    legacyNames m = legacyNames m' := by
+  unfold legacyNames; rw [hp, hf]
+
+theorem legacy_local_vs_cross_package (m m' : MethodS) (hf : m.fields = m'.fields)
+    (hr : ∀ f ∈ m.fields, memStr Pinned.reservedNames f.name = false) :
+    legacyNames m = legacyNames m' := by
+  have key : ∀ (b b' : Bool) (fs : List FieldS), (∀ f ∈ fs, memStr Pinned.reservedNames f.name = false) →
+      fs.map (pyFieldName b) = fs.map (pyFieldName b') := by
+    intro b b' fs hfs
+    apply List.map_congr_left
+    intro f hfm
+    simp [pyFieldName, hfs f hfm]
+  unfold legacyNames
+  rw [← hf, partition_eq_filter]
+  simp only
+  have hsub : ∀ f ∈ m.fields.filter (fun x => x.required) ++ m.fields.filter (fun x => !x.required),
+      memStr Pinned.reservedNames f.name = false := by
+    intro f hfm
+    rcases List.mem_append.mp hfm with h | h <;> exact hr f (List.mem_filter.mp h).1
+  rw [key m.protoPlus m'.protoPlus _ hsub]
+
 /-- **The legacy order does not depend on the field numbers**: two requests that declare the same
 (name, REQUIRED) sequence get the same list, whatever numbers the fields carry — in particular
 renumbering a message (fields added later, regrouped) never reorders the fix-up parameters. -/
@@ -465,6 +507,16 @@ theorem legacy_order_number_independent (m m' : MethodS) (hp : m.protoPlus = m'.
   simp only [id] at h1
   rw [h1]
   congr 2
+
+/-- `ApplyShared(acme.common.SharedRequest)`: note, spec (message, REQUIRED), parent (REQUIRED), filter_spec (message),
+kind (enum), tags (repeated), class (REQUIRED; reserved word, not renamed: the request is not proto-plus) -/
+def mApplyShared : MethodS := ⟨"ApplyShared".toList, false, false,
+  [⟨"note".toList, false, 1⟩, ⟨"spec".toList, true, 2⟩, ⟨"parent".toList, true, 3⟩, ⟨"filter_spec".toList, false, 4⟩,
+   ⟨"kind".toList, false, 5⟩, ⟨"tags".toList, false, 6⟩, ⟨"class".toList, true, 8⟩], false⟩
+example : mApplyShared.protoPlus = false := rfl
+example : (mApplyShared.fields.map (·.name)).Nodup := by decide
+example : legacyNames mApplyShared =
+    ["spec".toList, "parent".toList, "class".toList, "note".toList, "filter_spec".toList, "kind".toList, "tags".toList] := by decide
 
 /-- the legacy order of a message whose field numbers run AGAINST the declaration order is still the
 declaration order (required first) -/
